@@ -323,7 +323,7 @@ class Verdict:
             k = next((k for k in self.known if k["signature"] == sig), None)
             if k:
                 known_hit.append(sig)
-                log("KNOWN-FINDING: property=%s %s (%s; %d occurrence(s))" % (self.pid, sig, k.get("what", ""), len(items)))
+                log("KNOWN-FINDING: property=%s %s (%s; %d occurrence(s))" % (self.pid, sig, k.get("what", "")[:110], len(items)))
                 continue
             viol += 1
             rp = os.path.join(VERIF, "replays", "%s_%s.json" % (self.pid, re.sub(r"[^A-Za-z0-9_.-]+", "_", sig)[:80]))
